@@ -99,16 +99,26 @@ def localise(run_fn, rng=None, max_firings=3000):
     fs = mon.stop()
     t.firings = len(fs)
     verdicts = {}
-    for f in fs[:max_firings]:
-        try:
-            v = check_firing(f, rng)
-        except Exception as e:  # the localiser must never crash the check
-            from .dispatchmon import FiringVerdict
+    # deterministic budget: firings are decided in passes of growing per-firing cost caps (reference work per point, see eval_cost);
+    # the culprit is the innermost failing firing and is usually small, so later passes only run while no failing firing is known
+    from .dispatchmon import FiringVerdict
 
-            v = FiringVerdict("undecided", "checker-error", "%s: %s" % (type(e).__name__, e))
-        verdicts[f.index] = v
-        if v.status == "out-of-carrier":
-            t.out_of_carrier = True
+    pending = list(fs[:max_firings])
+    for cap in (1500, 15000, 150000):
+        nxt = []
+        for f in pending:
+            try:
+                v = check_firing(f, rng, max_cost=cap)
+            except Exception as e:  # the localiser must never crash the check
+                v = FiringVerdict("undecided", "checker-error", "%s: %s" % (type(e).__name__, e))
+            verdicts[f.index] = v
+            if v.status == "undecided" and v.kind == "too-costly":
+                nxt.append(f)
+            if v.status == "out-of-carrier":
+                t.out_of_carrier = True
+        pending = nxt
+        if not pending or any(v.status == "bad" for v in verdicts.values()):
+            break
     for i in innermost_culprits(fs, verdicts):
         name = fs[i].rule
         if name == "funsor.terms.SubstituteInterpretation.interpret":
